@@ -6,6 +6,8 @@ package main
 // exactly until it is met again.  Implementation-only oracle (the limit arithmetic of the model is covered by the main C08 profile).
 
 import (
+	"os"
+	"path/filepath"
 	"bytes"
 	"fmt"
 	"io"
@@ -143,4 +145,110 @@ func tailStrs(l []string, n int) []string {
 		return l
 	}
 	return append([]string{l[0], "…"}, l[len(l)-n+2:]...)
+}
+
+// ---------------------------------------------------------------------------------------------------------------
+// C08 (extra leg, implementation only): a cap that is LOWERED between two runs of the server.  A file store filled under a high (or no) cap and
+// reopened under a lower one holds mailboxes far above the new cap; the next delivery to such a mailbox has to evict several messages at
+// once: afterwards the mailbox holds exactly its `cap` most recent messages (the new one last), the evicted ones are the oldest, each with
+// one `deleted` event, oldest first.
+
+func init() {
+	prev := extra["C08"]
+	extra["C08"] = func(c *core.Ctx) {
+		if prev != nil {
+			prev(c)
+		}
+		runC08LoweredCap(c)
+	}
+}
+
+func runC08LoweredCap(c *core.Ctx) {
+	r := c.SubRng("c08-lowered-cap")
+	n := c.Scale(40, 800)
+	for i := 0; i < n; i++ {
+		dir := filepath.Join(c.Workdir, fmt.Sprintf("c08-lowered-%d-%d", os.Getpid(), i))
+		os.RemoveAll(dir)
+		high := []int{0, 0, 12, 20}[r.Intn(4)]
+		b, err := newBackend("file", high, 0, dir)
+		if err != nil {
+			c.Fail("setup", nil, err.Error(), "")
+			return
+		}
+		box := []string{"lowered", "Lowered@example.com", "x y"}[r.Intn(3)]
+		have := 2 + r.Intn(9)
+		var ids []string
+		for k := 0; k < have; k++ {
+			id, err := b.st.AddMessage(c09Delivery(box, k, 30+r.Intn(60), time.Unix(1700000000+int64(k), 0)))
+			if err != nil {
+				c.Fail("setup", nil, err.Error(), "")
+				return
+			}
+			ids = append(ids, id)
+		}
+		low := 1 + r.Intn(have) // 1 .. have: at the new cap or above it
+		trace := []string{fmt.Sprintf("file store: %d messages delivered to %q under cap %d; store reopened with cap %d; one more delivery", have, box, high, low)}
+		b.cfg.MailboxMsgCap = low
+		if err := b.reopen(); err != nil {
+			c.Fail("setup", trace, "reopen: "+err.Error(), "")
+			return
+		}
+		b.mu.Lock()
+		b.deleted = nil
+		b.mu.Unlock()
+		newID, err := b.st.AddMessage(c09Delivery(box, 99, 40, time.Unix(1700001000, 0)))
+		if err != nil {
+			c.Fail("fits-then-retrievable", trace, "AddMessage under the lowered cap: "+err.Error(), "")
+			os.RemoveAll(dir)
+			continue
+		}
+		all := append(append([]string{}, ids...), newID)
+		want := all[len(all)-low:]
+		gone := all[:len(all)-low]
+		// events are asynchronous: wait for as many as expected (bounded)
+		var ev []string
+		for deadline := time.Now().Add(3 * time.Second); ; time.Sleep(time.Millisecond) {
+			b.mu.Lock()
+			ev = append([]string{}, b.deleted...)
+			b.mu.Unlock()
+			if len(ev) >= len(gone) || time.Now().After(deadline) {
+				break
+			}
+		}
+		time.Sleep(2 * time.Millisecond)
+		b.mu.Lock()
+		ev = append([]string{}, b.deleted...)
+		b.mu.Unlock()
+		ms, err := b.st.GetMessages(box)
+		if err != nil {
+			c.Fail("listing-works", trace, err.Error(), "")
+			os.RemoveAll(dir)
+			continue
+		}
+		got := []string{}
+		for _, m := range ms {
+			got = append(got, m.ID())
+		}
+		c.Compared(2)
+		if strings.Join(got, ",") != strings.Join(want, ",") {
+			o := "keeps-most-recent"
+			if len(got) > low {
+				o = "cap-bound"
+			}
+			c.Fail(o, trace, fmt.Sprintf("the mailbox lists %v; its %d most recent messages are %v", got, low, want), "")
+		}
+		evIDs := []string{}
+		for _, e := range ev {
+			evIDs = append(evIDs, e[strings.LastIndex(e, "/")+1:])
+		}
+		if strings.Join(evIDs, ",") != strings.Join(gone, ",") {
+			c.Fail("evicts-oldest-first-with-one-event-each", trace, fmt.Sprintf("deleted events for %v; the evicted messages, oldest first, are %v", evIDs, gone), "")
+		}
+		if m, err := b.st.GetMessage(box, newID); err != nil || m == nil {
+			c.Fail("fits-then-retrievable", trace, fmt.Sprintf("the message just delivered (%s) cannot be fetched: %v", newID, err), "")
+		}
+		c.H(fmt.Sprintf("lowered-cap:evicts=%s", bucketN(len(gone))))
+		c.Count(fmt.Sprintf("lowered-%d-%d-%d", have, high, low), len(gone) > 1)
+		os.RemoveAll(dir)
+	}
 }
